@@ -146,7 +146,7 @@ func pkgShort(dir string) string {
 }
 
 var clauseRe = regexp.MustCompile(`^(requires|ensures|records|invariant|assert@call|assert@store|assert@return|derive@call|assume)(\[[^\]]*\])?\s+(.*)$`)
-var recordsRe = regexp.MustCompile(`^[A-Z][A-Za-z0-9_]*\((\s*[A-Za-z_][A-Za-z0-9_]*\s*,?)*\)$`)
+var recordsRe = regexp.MustCompile(`^[A-Z][A-Za-z0-9_]*\((\s*\*?[A-Za-z_][A-Za-z0-9_]*\s*,?)*\)$`)
 var labelRe = regexp.MustCompile(`^([A-Za-z0-9_.\-]+):\s+(.*)$`)
 
 // readSpecLines returns logical //@ lines of a file (continuations joined).
@@ -284,8 +284,9 @@ func (cs *ContractSet) parseFile(path, pkgDir string, extern bool) {
 			}
 		case word == "mapinv" && strings.Contains(strings.Fields(rest+" x")[0], "."):
 			f := strings.Fields(rest)
-			if len(f) == 2 {
-				cs.mapInvs = append(cs.mapInvs, [2]string{"F:" + pkgShort(pkgDir) + "." + f[0], f[1]})
+			if len(f) >= 2 {
+				// mapinv Type.field nonnil [distinct]
+				cs.mapInvs = append(cs.mapInvs, [2]string{"F:" + pkgShort(pkgDir) + "." + f[0], strings.Join(f[1:], "+")})
 			}
 		case word == "mapinv":
 			f := strings.Fields(rest)
@@ -660,77 +661,104 @@ func scanPackage(dir string) (map[string]*funcSig, []importSpec, error) {
 				continue
 			}
 			key := fd.Name.Name
-			sig := &funcSig{file: n}
-			np := 0
-			addField := func(name string, t ast.Expr) {
-				ts := exprString(fset, t)
-				if el, ok := t.(*ast.Ellipsis); ok {
-					ts = "[]" + exprString(fset, el.Elt)
-				}
-				if name == "" || name == "_" {
-					name = fmt.Sprintf("_p%d", np)
-				}
-				np++
-				sig.params = append(sig.params, name+" "+ts)
-				sig.pnames = append(sig.pnames, name)
-			}
 			if fd.Recv != nil && len(fd.Recv.List) == 1 {
-				r := fd.Recv.List[0]
-				rt := exprString(fset, r.Type)
-				key = "(" + rt + ")." + key
-				name := ""
-				if len(r.Names) == 1 {
-					name = r.Names[0].Name
-				}
-				addField(name, r.Type)
+				key = "(" + exprString(fset, fd.Recv.List[0].Type) + ")." + key
 			}
-			for _, p := range fd.Type.Params.List {
-				if len(p.Names) == 0 {
-					addField("", p.Type)
+			sigs[key] = buildSig(fset, n, fd.Recv, fd.Type)
+			// function literals, numbered the way go/ssa names them: Outer$1, Outer$2, Outer$1$1 ...
+			var lits func(node ast.Node, prefix string)
+			lits = func(node ast.Node, prefix string) {
+				if node == nil {
+					return
 				}
-				for _, nm := range p.Names {
-					addField(nm.Name, p.Type)
-				}
+				cnt := 0
+				ast.Inspect(node, func(x ast.Node) bool {
+					if fl, ok := x.(*ast.FuncLit); ok {
+						cnt++
+						k := fmt.Sprintf("%s$%d", prefix, cnt)
+						sigs[k] = buildSig(fset, n, nil, fl.Type)
+						lits(fl.Body, k)
+						return false
+					}
+					return true
+				})
 			}
-			if fd.Type.Results != nil {
-				var rts []ast.Expr
-				var rns []string
-				for _, r := range fd.Type.Results.List {
-					if len(r.Names) == 0 {
-						rts = append(rts, r.Type)
-						rns = append(rns, "")
-					}
-					for _, nm := range r.Names {
-						rts = append(rts, r.Type)
-						rns = append(rns, nm.Name)
-					}
-				}
-				for i, rt := range rts {
-					ts := exprString(fset, rt)
-					name := rns[i]
-					if name == "" || name == "_" {
-						switch {
-						case len(rts) == 1 && ts == "error":
-							name = "err"
-						case len(rts) == 1:
-							name = "result"
-						case len(rts) == 2 && i == 0 && exprString(fset, rts[1]) == "error":
-							name = "result"
-						case len(rts) == 2 && i == 1 && ts == "error":
-							name = "err"
-						default:
-							name = fmt.Sprintf("ret%d", i)
-						}
-					}
-					sig.results = append(sig.results, name+" "+ts)
-					sig.rnames = append(sig.rnames, name)
-				}
+			if fd.Body != nil {
+				lits(fd.Body, key)
 			}
-			sigs[key] = sig
 		}
 	}
 	return sigs, imps, nil
 }
+
+func buildSig(fset *token.FileSet, n string, recv *ast.FieldList, ftype *ast.FuncType) *funcSig {
+	sig := &funcSig{file: n}
+	np := 0
+	addField := func(name string, t ast.Expr) {
+		ts := exprString(fset, t)
+		if el, ok := t.(*ast.Ellipsis); ok {
+			ts = "[]" + exprString(fset, el.Elt)
+		}
+		if name == "" || name == "_" {
+			name = fmt.Sprintf("_p%d", np)
+		}
+		np++
+		sig.params = append(sig.params, name+" "+ts)
+		sig.pnames = append(sig.pnames, name)
+	}
+	if recv != nil && len(recv.List) == 1 {
+		r := recv.List[0]
+		name := ""
+		if len(r.Names) == 1 {
+			name = r.Names[0].Name
+		}
+		addField(name, r.Type)
+	}
+	for _, p := range ftype.Params.List {
+		if len(p.Names) == 0 {
+			addField("", p.Type)
+		}
+		for _, nm := range p.Names {
+			addField(nm.Name, p.Type)
+		}
+	}
+	if ftype.Results != nil {
+		var rts []ast.Expr
+		var rns []string
+		for _, r := range ftype.Results.List {
+			if len(r.Names) == 0 {
+				rts = append(rts, r.Type)
+				rns = append(rns, "")
+			}
+			for _, nm := range r.Names {
+				rts = append(rts, r.Type)
+				rns = append(rns, nm.Name)
+			}
+		}
+		for i, rt := range rts {
+			ts := exprString(fset, rt)
+			name := rns[i]
+			if name == "" || name == "_" {
+				switch {
+				case len(rts) == 1 && ts == "error":
+					name = "err"
+				case len(rts) == 1:
+					name = "result"
+				case len(rts) == 2 && i == 0 && exprString(fset, rts[1]) == "error":
+					name = "result"
+				case len(rts) == 2 && i == 1 && ts == "error":
+					name = "err"
+				default:
+					name = fmt.Sprintf("ret%d", i)
+				}
+			}
+			sig.results = append(sig.results, name+" "+ts)
+			sig.rnames = append(sig.rnames, name)
+		}
+	}
+	return sig
+}
+
 
 var sigRe = regexp.MustCompile(`^func\s*\((.*)\)\s*(\(.*\)|[^()\s].*)?$`)
 
